@@ -29,7 +29,83 @@ def c01_shapes(tier):
     out.append((1, 0, 0, 0, 4))
     return out
 
+def c03_shapes(tier):
+    # (strategy, breakers, buckets, depth, retry class)
+    if tier == 'quick':
+        return [(1, 1, 1, 4, 0), (0, 1, 1, 3, 0), (2, 1, 2, 3, 1), (1, 2, 1, 3, 0)]
+    out = []
+    for st in (0, 1, 2):
+        for bk in (1, 2):
+            for rc in (0, 1):
+                out.append((st, 1, bk, 4, rc))
+        out.append((st, 2, 1, 4, 0))
+    return out
+
+def c04_shapes(tier):
+    # (ops, flow rule on r0, isolation threshold on r1, sums after every op)
+    if tier == 'quick':
+        return [(3, 1, 1, 0), (2, 0, 2, 1)]
+    return [(4, 1, 1, 0), (4, 0, 1, 0), (3, 1, 2, 1), (3, 0, 0, 1)]
+
+def c05_shapes(tier):
+    if tier == 'quick':
+        return [(1, 4), (2, 4)]
+    return [(1, 7), (2, 6)]
+
+def c13_shapes(tier):
+    if tier == 'quick':
+        return [(0, 0, 0), (1, 2, 1), (2, 1, 2), (0, 3, 1), (2, 2, 2)]
+    out = []
+    for a in range(0, 4):
+        for b in range(0, 4):
+            for c in range(0, 4):
+                out.append((a, b, c))
+    out += [(4, 4, 0), (0, 4, 4), (4, 0, 4), (1, 4, 1)]
+    return out
+
 PROPS = {
+    'C03': {
+        'level': 'model_checking',
+        'bounds': 'strategies slow-ratio/error-ratio/error-count; 1-2 breakers on one resource (second with doubled retry timeout); 1-2 window buckets of a 1000 ms window; '
+                  'retry timeout 400 ms (shorter than the window) or 1500 ms (longer); event depth 3 (quick) / 4 (thorough) over {enter, complete oldest ok, complete oldest with error}, '
+                  'each preceded by a symbolic time advance in [0, max(1000, retry)+100] ms; min_request_amount in [0,3]; ratio thresholds from {0,1/4,1/3,1/2,2/3,3/4,1}, count thresholds in [0,4]; max_allowed_rt 100 ms',
+        'assumptions': ['virtual clock', 'breaker consultation order is read back from get_breakers_of_resource',
+                        'a probe rejected by another breaker returns to Open without a new retry time (as the property states only the return to Open)'],
+        'scenarios': [
+            {'name': 'c03_breaker', 'shapes': {'quick': c03_shapes('quick'), 'thorough': c03_shapes('thorough')},
+             'witnesses': ['opened', 'rejected', 'probe-admitted', 'closed-after-probe', 'reopened-after-probe', 'probe-rejected'],
+             'selftest': {'quick': 8, 'thorough': 40}},
+        ],
+    },
+    'C04': {
+        'level': 'model_checking',
+        'bounds': 'two resources (one inbound, one outbound), optional flow rule (threshold symbolic in [0,4]) on the first and isolation rule on the second; op sequences of length 3-4 (quick) / 4-5 (thorough) '
+                  'over {build r0, build r1, exit first/second open entry}; batch in [1,3]; gaps in [0,1200] ms; after every op all counters of both nodes and of the inbound node are compared with a ledger',
+        'assumptions': ['virtual clock', 'window function of the default metric: two 500 ms buckets ending at the current bucket'],
+        'scenarios': [
+            {'name': 'c04_accounting', 'shapes': {'quick': c04_shapes('quick'), 'thorough': c04_shapes('thorough')},
+             'witnesses': ['pass', 'block'], 'selftest': {'quick': 8, 'thorough': 40}},
+        ],
+    },
+    'C05': {
+        'level': 'model_checking',
+        'bounds': 'isolation: 1-2 rules with thresholds in [1,3], batch in [1,3], op sequences of length 4 (quick) / 6-7 (thorough) over {build, exit first/last open entry}; '
+                  'hotspot concurrency: see c05_hotspot shapes',
+        'assumptions': ['rejections observed through an extra statistic slot appended to a chain built like the global one (hook slot_chain_with)'],
+        'scenarios': [
+            {'name': 'c05_isolation', 'shapes': {'quick': c05_shapes('quick'), 'thorough': c05_shapes('thorough')},
+             'witnesses': ['admitted', 'rejected'], 'selftest': {'quick': 8, 'thorough': 40}},
+        ],
+    },
+    'C13': {
+        'level': 'model_checking',
+        'bounds': '0-3 (quick: selected) / 0-4 slots of each kind with symbolic order values in [0,3] (ties included) added in any order; every check result in {pass, blocked(type i), wait(0)}; one entry, exited once',
+        'assumptions': ['unstable sort modelled as any permutation consistent with the keys'],
+        'scenarios': [
+            {'name': 'c13_chain', 'shapes': {'quick': c13_shapes('quick'), 'thorough': c13_shapes('thorough')},
+             'witnesses': ['passed', 'blocked'], 'selftest': {'quick': 8, 'thorough': 40}},
+        ],
+    },
     'C01': {
         'level': 'model_checking',
         'bounds': '1-3 direct/reject rules on one resource, window classes default/reuse(1,4,10,20 buckets)/private(250,700,1500,20000 ms); k<=3 (quick) / <=4 requests; '
